@@ -299,7 +299,13 @@ def r4_width_selection(ctx: Ctx) -> None:
     for q in ("Opcode.supposed_length", "Opcode.emit"):
         fn = ctx.repo.func(CPU, q)
         cs = calls_in(fn.node, "guess_value_size")
-        ok = len(cs) >= 1 and all([unparse(a) for a in c.args] == [fn.params()[1], fn.params()[3 if q.endswith("emit") else 2]] for c in cs)
+        from ..match import canon as _canon_w, kwarg as _kw_w
+
+        def _bound(c: ast.Call) -> list[str | None]:
+            # (value node, size) as the callee receives them, by position or keyword, read through local aliases of the parameters
+            return [_canon_w(fn.node, a) if a is not None else None for a in (_kw_w(c, "value_node", 0), _kw_w(c, "size", 1))]
+
+        ok = len(cs) >= 1 and all(_bound(c) == [fn.params()[1], fn.params()[3 if q.endswith("emit") else 2]] for c in cs)
         ctx.check(ok, f"{q}:width-source", "width comes from guess_value_size(value_node, size)")
 
 
@@ -739,7 +745,10 @@ def r7_field_plumbing(ctx: Ctx) -> None:
         ctx.check(st.get(f"self.{f}") == f, f"OpcodeNode.__init__:{f}", "field holds the like-named argument")
     em = ctx.repo.func(NODES, "OpcodeNode.emit")
     ecall = [c for c in calls_in(em.node) if call_name(c) == "opcode_emitter.emit"]
-    ctx.check(len(ecall) == 1 and [unparse(a) for a in ecall[0].args] == ["self.value_node", "self.resolver", "self.size"], "OpcodeNode.emit:arguments", "the emitter receives this node's operand and explicit width")
+    from ..match import kwarg as _kw7
+
+    got_e = [unparse(a) if a is not None else None for a in (_kw7(ecall[0], n_, i_) for i_, n_ in enumerate(("value_node", "resolver", "size")))] if len(ecall) == 1 else []
+    ctx.check(got_e == ["self.value_node", "self.resolver", "self.size"], "OpcodeNode.emit:arguments", "the emitter receives this node's operand and explicit width")
     ctx.floor("OpcodeNode_constructions", 2)
 
 
